@@ -26,25 +26,24 @@ import (
 	"verifharness/kit/nat"
 	"verifharness/kit/pk"
 	"verifharness/synth/ccmsynth"
+	gs "verifharness/synth/genesissynth"
 )
+
+// the genesis builders live in synth/genesissynth (shared with the C16/C17 workloads)
+type gparams = gs.Params
+type routerDef = gs.Router
+
+func routers() []routerDef { return gs.Routers() }
 
 // mainNetGate is the poly height from which utils.CheckRouterStartBlock admits hsc / bytom /
 // harmony on main net.
 const mainNetGate = 18823000
 
 func syncArgs(chainID uint64, relayer common.Address, headers [][]byte) []byte {
-	p := &hscommon.SyncBlockHeaderParam{ChainID: chainID, Address: relayer, Headers: headers}
-	sink := common.NewZeroCopySink(nil)
-	p.Serialization(sink)
-	return sink.Bytes()
+	return gs.SyncArgs(chainID, relayer, headers)
 }
 
-func genesisArgs(chainID uint64, blob []byte) []byte {
-	p := &hscommon.SyncGenesisHeaderParam{ChainID: chainID, GenesisHeader: blob}
-	sink := common.NewZeroCopySink(nil)
-	p.Serialization(sink)
-	return sink.Bytes()
-}
+func genesisArgs(chainID uint64, blob []byte) []byte { return gs.GenesisArgs(chainID, blob) }
 
 // scenario is the shape of one universe: network id, number of poly validators, key seed.
 type scenario struct {
@@ -101,7 +100,7 @@ func (a *arena) newChain(rd routerDef) (uint64, error) {
 	a.next += 1 + uint64(a.rng.Intn(7))
 	ccmc := make([]byte, 20)
 	a.rng.Read(ccmc)
-	if err := a.w.RegisterAndApprove(ccmsynth.ChainSpec{ID: id, Router: rd.id, Name: fmt.Sprintf("%s-%d", rd.name, id), CCMC: ccmc, Extra: rd.extra}); err != nil {
+	if err := a.w.RegisterAndApprove(ccmsynth.ChainSpec{ID: id, Router: rd.ID, Name: fmt.Sprintf("%s-%d", rd.Name, id), CCMC: ccmc, Extra: rd.Extra}); err != nil {
 		return 0, err
 	}
 	return id, nil
@@ -112,9 +111,9 @@ func drawParams(rng *rand.Rand, rd routerDef) gparams {
 	if rng.Intn(8) == 0 {
 		p.NVals = 21
 	}
-	p.Height = rd.minH
+	p.Height = rd.MinH
 	if rng.Intn(4) != 0 {
-		p.Height = rd.minH + rd.hstep*uint64(rng.Int63n(int64(rd.spanH)))
+		p.Height = rd.MinH + rd.HStep*uint64(rng.Int63n(int64(rd.SpanH)))
 	}
 	return p
 }
@@ -128,13 +127,13 @@ func derive(rng *rand.Rand, rd routerDef, p gparams, kind string) gparams {
 		for q.Height == p.Height {
 			switch rng.Intn(3) {
 			case 0:
-				q.Height = p.Height + rd.hstep // the very next admissible height
+				q.Height = p.Height + rd.HStep // the very next admissible height
 			case 1:
-				if p.Height >= rd.minH+rd.hstep {
-					q.Height = p.Height - rd.hstep
+				if p.Height >= rd.MinH+rd.HStep {
+					q.Height = p.Height - rd.HStep
 				}
 			default:
-				q.Height = rd.minH + rd.hstep*uint64(rng.Int63n(int64(rd.spanH)))
+				q.Height = rd.MinH + rd.HStep*uint64(rng.Int63n(int64(rd.SpanH)))
 			}
 		}
 	}
@@ -206,10 +205,10 @@ func TestC19(t *testing.T) {
 
 	for _, rd := range routers() {
 		rd := rd
-		rng := r.Rand("router/" + rd.name)
+		rng := r.Rand("router/" + rd.Name)
 		firstOK := 0
 		setupErr := ""
-		outcome[rd.name] = map[string]int{}
+		outcome[rd.Name] = map[string]int{}
 		var ar *arena
 		var sc scenario
 		for seq := 0; seq < nseq; seq++ {
@@ -219,7 +218,7 @@ func TestC19(t *testing.T) {
 				if ar, err = newArena(sc); err != nil {
 					ar = nil
 					setupErr = fmt.Sprintf("universe %+v: %v", sc, err)
-					r.Count("setup_failed:"+rd.name, 1)
+					r.Count("setup_failed:"+rd.Name, 1)
 					continue
 				}
 				r.Count("universes", 1)
@@ -227,16 +226,16 @@ func TestC19(t *testing.T) {
 			w := ar.w
 			w.E.Height = polyHeight(rng, sc)
 			p1 := drawParams(rng, rd)
-			g1, err := rd.build(p1)
+			g1, err := rd.Build(p1)
 			if err != nil {
 				setupErr = fmt.Sprintf("build G1 %+v: %v", p1, err)
-				r.Count("setup_failed:"+rd.name, 1)
+				r.Count("setup_failed:"+rd.Name, 1)
 				continue
 			}
 			chainID, err := ar.newChain(rd)
 			if err != nil {
 				setupErr = fmt.Sprintf("register chain in %+v: %v", sc, err)
-				r.Count("setup_failed:"+rd.name, 1)
+				r.Count("setup_failed:"+rd.Name, 1)
 				continue
 			}
 			op := nat.Operator(w.Vals)
@@ -244,26 +243,26 @@ func TestC19(t *testing.T) {
 			rec := w.E.Call(utils.HeaderSyncContractAddress, hscommon.SYNC_GENESIS_HEADER, genesisArgs(chainID, g1), op)
 			if !rec.Ok {
 				setupErr = fmt.Sprintf("G1 refused %+v %+v: %s", sc, p1, rec.Err)
-				r.Count("setup_failed:"+rd.name, 1)
+				r.Count("setup_failed:"+rd.Name, 1)
 				continue
 			}
 			if w.E.Digest(hs) == empty {
 				// accepted but nothing stored: there is no trust root to protect, not a usable sequence
 				setupErr = fmt.Sprintf("G1 accepted without storing anything %+v %+v", sc, p1)
-				r.Count("setup_failed:"+rd.name, 1)
+				r.Count("setup_failed:"+rd.Name, 1)
 				continue
 			}
 			validCache := map[string]string{blobID(g1): ""} // blob id -> "" (valid as first genesis) or the refusal
 			firstOK++
-			r.Count("first_ok:"+rd.name, 1)
+			r.Count("first_ok:"+rd.Name, 1)
 			history := []step{{Pos: 0, Kind: "first", Signer: "operator", Params: p1, Genesis: kit.Hex(g1), PolyH: w.E.Height, Ok: true, Class: "installed", Before: empty, After: w.E.Digest(hs)}}
 
 			// where the harness can build acceptable follow-up headers, two thirds of the sequences let the
 			// light client advance before the later genesis attempts (not judged, only counted)
-			if rd.sync != nil && seq%3 != 2 {
-				hdrs, err := rd.sync(p1, rng)
+			if rd.Sync != nil && seq%3 != 2 {
+				hdrs, err := rd.Sync(p1, rng)
 				if err != nil {
-					r.Count("header_sync_build_failed:"+rd.name, 1)
+					r.Count("header_sync_build_failed:"+rd.Name, 1)
 				} else {
 					w.E.Height += 1 + uint32(rng.Intn(3))
 					b0 := w.E.Digest(hs)
@@ -275,10 +274,10 @@ func TestC19(t *testing.T) {
 					}
 					history = append(history, st)
 					if recS.Ok && b1 != b0 {
-						r.Count("header_sync_ok:"+rd.name, 1)
+						r.Count("header_sync_ok:"+rd.Name, 1)
 					} else {
-						r.Count("header_sync_failed:"+rd.name, 1)
-						r.Set("header_sync_failed_example:"+rd.name, trunc(recS.Err, 400))
+						r.Count("header_sync_failed:"+rd.Name, 1)
+						r.Set("header_sync_failed_example:"+rd.Name, trunc(recS.Err, 400))
 					}
 				}
 			}
@@ -296,15 +295,15 @@ func TestC19(t *testing.T) {
 
 			for pos, kind := range kinds {
 				p2 := derive(rng, rd, p1, kind)
-				g2, err := rd.build(p2)
+				g2, err := rd.Build(p2)
 				if err != nil {
-					r.Count("g2_build_failed:"+rd.name, 1)
+					r.Count("g2_build_failed:"+rd.Name, 1)
 					continue
 				}
 				if bytes.Equal(g2, g1) {
 					kind = "same"
 				} else if kind == "same" {
-					r.Inconclusive("harness: builder of " + rd.name + " is not a function of its parameters")
+					r.Inconclusive("harness: builder of " + rd.Name + " is not a function of its parameters")
 					continue
 				}
 				// G2 must itself be a valid first genesis (else a refusal in second position proves nothing)
@@ -327,8 +326,8 @@ func TestC19(t *testing.T) {
 					validCache[id] = why
 				}
 				if why != "" {
-					r.Count("g2_invalid:"+rd.name, 1)
-					r.Set("g2_invalid_example:"+rd.name, fmt.Sprintf("%s %+v: %s", kind, p2, trunc(why, 300)))
+					r.Count("g2_invalid:"+rd.Name, 1)
+					r.Set("g2_invalid_example:"+rd.Name, fmt.Sprintf("%s %+v: %s", kind, p2, trunc(why, 300)))
 					continue
 				}
 
@@ -353,7 +352,7 @@ func TestC19(t *testing.T) {
 					Class: class, Before: d0, After: d1}
 				history = append(history, st)
 				if rec.Panic != nil {
-					r.Count("panics:"+rd.name, 1)
+					r.Count("panics:"+rd.Name, 1)
 				}
 
 				r.Eval(1)
@@ -361,59 +360,59 @@ func TestC19(t *testing.T) {
 				if p2.NVals >= 8 {
 					nb = "many"
 				}
-				r.Distinct(rd.name, kind, signer, class, pos+1, sc.NetID, nb)
+				r.Distinct(rd.Name, kind, signer, class, pos+1, sc.NetID, nb)
 				if kind == "same" {
-					r.Count("later_same:"+rd.name, 1)
+					r.Count("later_same:"+rd.Name, 1)
 				} else {
-					r.Count("later_diff:"+rd.name, 1)
+					r.Count("later_diff:"+rd.Name, 1)
 					if signer == "operator" {
-						r.Count("later_diff_operator:"+rd.name, 1)
+						r.Count("later_diff_operator:"+rd.Name, 1)
 					}
 				}
-				outcome[rd.name][class]++
+				outcome[rd.Name][class]++
 				switch class {
 				case "rejected":
-					r.Count("rejected:"+rd.name, 1)
+					r.Count("rejected:"+rd.Name, 1)
 					r.Count("rejected", 1)
 				case "noop-success":
-					r.Count("noop_success:"+rd.name, 1)
+					r.Count("noop_success:"+rd.Name, 1)
 					r.Count("noop_success", 1)
 				default:
-					r.Count("changed:"+rd.name, 1)
-					key := "router:" + rd.name + " second-genesis-changes-state"
+					r.Count("changed:"+rd.Name, 1)
+					key := "router:" + rd.Name + " second-genesis-changes-state"
 					vioSeen[key]++
 					if vioSeen[key] <= 2 { // one replay file per shape is enough; the rest is counted
 						r.Violation(key,
 							fmt.Sprintf("router %s chain %d: after a successful first genesis, attempt #%d (%s genesis, signed by %s, returned ok=%v %s) changed the header-sync state %s -> %s: %v",
-								rd.name, chainID, pos+1, kind, signer, rec.Ok, trunc(rec.Err, 120), d0, d1, nat.Diff(dump0, w.E.Dump(hs))),
-							map[string]interface{}{"router": rd.name, "router_id": rd.id, "net_id": sc.NetID, "chain_id": chainID, "side_chain_extra": string(rd.extra),
+								rd.Name, chainID, pos+1, kind, signer, rec.Ok, trunc(rec.Err, 120), d0, d1, nat.Diff(dump0, w.E.Dump(hs))),
+							map[string]interface{}{"router": rd.Name, "router_id": rd.ID, "net_id": sc.NetID, "chain_id": chainID, "side_chain_extra": string(rd.Extra),
 								"poly_validators": sc.NPolyVals, "universe_seed": sc.Seed, "sequence": history, "diff": nat.Diff(dump0, w.E.Dump(hs)),
 								"method": hscommon.SYNC_GENESIS_HEADER, "contract": kit.Hex(hs)})
 					}
 				}
-				if seq == 0 && pos == 0 && (rd.name == "eth" || rd.name == "cosmos" || rd.name == "neo" || rd.name == "btc" || rd.name == "ont" || rd.name == "zilliqa") {
-					r.Sample(map[string]interface{}{"router": rd.name, "net_id": sc.NetID, "first": p1, "later": p2, "kind": kind, "signer": signer,
+				if seq == 0 && pos == 0 && (rd.Name == "eth" || rd.Name == "cosmos" || rd.Name == "neo" || rd.Name == "btc" || rd.Name == "ont" || rd.Name == "zilliqa") {
+					r.Sample(map[string]interface{}{"router": rd.Name, "net_id": sc.NetID, "first": p1, "later": p2, "kind": kind, "signer": signer,
 						"ok": rec.Ok, "err": trunc(rec.Err, 160), "class": class, "genesis_len": len(g2), "genesis_head_hex": trunc(kit.Hex(g2), 96)})
 				}
 			}
 		}
 		if firstOK > 0 {
-			covered = append(covered, rd.name)
+			covered = append(covered, rd.Name)
 			r.Count("routers_covered", 1)
 		} else {
-			uncovered = append(uncovered, rd.name+" ("+trunc(setupErr, 300)+")")
+			uncovered = append(uncovered, rd.Name+" ("+trunc(setupErr, 300)+")")
 		}
 		if setupErr != "" {
-			r.Set("setup_failed_example:"+rd.name, trunc(setupErr, 400))
+			r.Set("setup_failed_example:"+rd.Name, trunc(setupErr, 400))
 		}
 		// vacuity guards per router: every sequence installed a first genesis, and the monitor saw
 		// both a repeated and a different valid genesis reach the contract with operator authority
-		r.Require("first_ok:"+rd.name, nseq)
-		r.Require("later_same:"+rd.name, nseq/2)
-		r.Require("later_diff:"+rd.name, nseq/2)
-		r.Require("later_diff_operator:"+rd.name, 1)
-		if rd.sync != nil {
-			r.Require("header_sync_ok:"+rd.name, nseq/3)
+		r.Require("first_ok:"+rd.Name, nseq)
+		r.Require("later_same:"+rd.Name, nseq/2)
+		r.Require("later_diff:"+rd.Name, nseq/2)
+		r.Require("later_diff_operator:"+rd.Name, 1)
+		if rd.Sync != nil {
+			r.Require("header_sync_ok:"+rd.Name, nseq/3)
 		}
 	}
 	sort.Strings(covered)
